@@ -618,6 +618,8 @@ pub fn run_stall(focus: &'static str, seed: u64, index: u64) -> CaseOut {
 
 // ------------------------------------------------------------------------------------------------ C18: stress at maximal lock sharing
 
+static REENTRANT_CALLS: AtomicU64 = AtomicU64::new(0);
+
 pub fn run_stress(focus: &'static str, seed: u64, index: u64, args: &Args) -> CaseOut {
     let mut rng = rt::rng_for(seed, index, 0x18);
     let threads = args.u64("threads", *rng.pick(&[8u64, 12, 16])) as usize;
@@ -664,9 +666,35 @@ pub fn run_stress(focus: &'static str, seed: u64, index: u64, args: &Args) -> Ca
                 let key = rng.range(1, keys);
                 let t0 = Instant::now();
                 if shut && n == ops / 2 { cache.shutdown(); }
-                match rng.below(10) {
+                match rng.below(11) {
                     0..=3 => { let _ = read(&cache, rng.below(7) as usize, key); }
                     4 => { let keys: Vec<u64> = (1..=keys).collect(); let _ = read_multi(&cache, rng.below(3) as usize, &keys); }
+                    10 => {
+                        // calling back into the cache from the mapping function of map_get, and between two items of a multi-key
+                        // iterator: no reference guard is held by the caller there, so every such call must return
+                        let other = if rng.chance(1, 2) { key } else { rng.range(1, keys) };
+                        let value = client.token(other);
+                        let back = match rng.below(4) {
+                            0 => Some(WriteOp::Upsert { key: other, value: Some(value), weight: Some(rng.range(25, 50) as i64), ttl: None, remove_ttl: false }),
+                            1 => Some(WriteOp::Delete { key: other }),
+                            2 => Some(WriteOp::PutW { key: other, value, weight: rng.range(25, 60) as i64 }),
+                            _ => None,
+                        };
+                        if rng.chance(2, 3) {
+                            let _ = cache.map_get(&key, |stored| {
+                                match &back { Some(op) => { let _ = issue(&cache, op); } None => { let _ = cache.get(&other); let _ = cache.total_weight_used(); } }
+                                stored
+                            });
+                        } else {
+                            let all: Vec<u64> = (1..=keys).collect();
+                            let refs: Vec<&u64> = all.iter().collect();
+                            let mut iterator = cache.multi_get_iterator(refs);
+                            let _ = iterator.next();
+                            if let Some(op) = &back { let _ = issue(&cache, op); }
+                            for _ in iterator {}
+                        }
+                        REENTRANT_CALLS.fetch_add(1, Ordering::Relaxed);
+                    }
                     _ => {
                         let value = client.token(key);
                         let ttl = Duration::from_nanos(rng.range(0, 2 * NS));
@@ -725,6 +753,7 @@ pub fn run_stress(focus: &'static str, seed: u64, index: u64, args: &Args) -> Ca
     sched().quiet();
     let total_ops = threads as u64 * ops;
     counts.add("operations_completed", total_ops);
+    counts.add("calls_back_into_the_cache_from_map_get_or_between_iterator_items", REENTRANT_CALLS.swap(0, Ordering::Relaxed));
     counts.add("longest_single_call_us", longest.load(Ordering::Relaxed));
     counts.add("schedule_perturbations_injected", sched().injected.swap(0, Ordering::Relaxed));
     let pairs = lock_site_pairs(&trace);
